@@ -3,6 +3,8 @@ position."""
 import math
 import random
 
+from vpm import history
+
 ID = "C14"
 RULE = ("Seasons: every year -1000..3000 x 4 seasons, complete in both tiers "
         "(exhaustive for that clause), plus refusal probes. Equation of "
@@ -58,7 +60,7 @@ POINTS = {
                         "return (None, None, None)"),
 }
 REQUIRED_POINTS = list(POINTS)
-REQUIRED_CLAUSES = ["season.longitude", "season.order-and-gaps",
+REQUIRED_CLAUSES = [history.CLAUSE, "season.longitude", "season.order-and-gaps",
                     "season.year-length", "season.refuses-other-years",
                     "eot.range", "eot.daily-change", "sunrise.altitude",
                     "sunrise.order", "rts.altitude", "rts.transit",
@@ -394,11 +396,12 @@ def case_rts(mon, lonw, lat, a2, d2, da, dd, h0, delta_t, theta0):
               dict(case, returned=list(res), hour_angle_at_transit=Ht))
 
 
-CASES = {"seasons": case_seasons, "season_refusals": case_season_refusals,
+CASES = {"history": history.case, "seasons": case_seasons, "season_refusals": case_season_refusals,
          "eot_year": case_eot_year, "sunrise": case_sunrise, "rts": case_rts}
 
 
 def run(mon, spec):
+    history.run_cases(mon, ID, spec)
     if spec["part"] == "seasons":
         mon.begin("seasons", [spec["lo"], spec["hi"]])
         case_seasons(mon, spec["lo"], spec["hi"])
